@@ -250,3 +250,16 @@ impl std::io::Write for ShortWriter {
         Ok(())
     }
 }
+
+/// Output paths of the shipped programs are not always fresh: puts a longer, unrelated file
+/// where the program is about to write (a program that opens its output without truncating
+/// leaves the old tail behind).
+pub fn prefill(path: &std::path::Path, salt: usize) {
+    let line = b"stale,1 2 3,left over from an earlier run\n";
+    let n = 200 + (salt % 7) * 4000;
+    let mut data = Vec::with_capacity(n * line.len());
+    for _ in 0..n {
+        data.extend_from_slice(line);
+    }
+    let _ = std::fs::write(path, data);
+}
